@@ -213,6 +213,12 @@ def run(ctx):
                                  len(IncludeverifCommand.helper), (okn, got), (ok0, base))})
                 break
     IncludeverifCommand.helper = b""
+    import aliasing
+    held_src = r.sample(gen_ok, min(len(gen_ok), 60 if ctx.tier == "quick" else 600))
+    others = [b'require "fileinto"; fileinto ["a"];', b'keep; stop "x";', b'require "imap4flags"; addflag ["\\\\Seen", "x"]; keep;', b"if true { foo", b'redirect "a@b.c";']
+    for v in aliasing.held_results(held_src, others):
+        if v["kind"] != "printed text":
+            viol.append(v)
     fresh, known = split_known("C03", viol, matcher)
     res = std_result(rec, info, fresh, known, RULE, {"accepted_checked": nacc, "reused_parser_checked": nreuse, "nested_parse_checked": nested, "parse_file_checked": nfile})
     res["evaluations"] += nreuse
